@@ -24,7 +24,7 @@ def sh(cmd, cwd=None, env=None, timeout=3000):
 def passed_tests(out):
     ok = []
     for l in out.splitlines():
-        m = re.match(r"^test (\S+) \.\.\. ok", l)
+        m = re.match(r"^test (\S+)(?: - should panic)? \.\.\. ok", l)
         if m:
             ok.append(m.group(1))
     return ok
